@@ -14,6 +14,8 @@ using namespace vf;
 
 static Fields gen(Tape &t) {
   Fields f;
+  LongMode lm(t);  // one history in 16 with long texts: paths of several hundred segments, components of 1024 / 4096 characters
+  if (lm.on()) f.seti("long", 1);
   std::vector<Op> ops = g_history(t, SEG_ANY, true, 7);
   Op fin;
   fin.kind = t.coin() ? 'O' : 'N';
